@@ -520,10 +520,11 @@ func (e *Engine) boundedComplements(prop string, thorough bool, res *thoroughRes
 			"real snappy codec through compressCellblocks/decompressCellblocks: 14 payload sizes around chunk boundaries x 3 byte patterns x 4 buffer splittings"),
 			"c15-roundtrip", "a compressed cellblock stream did not decompress to the bytes written")
 	}
-	if prop == "C08" || prop == "C01" {
+	if prop == "C08" || prop == "C01" || prop == "C04" {
 		// the inductive cache invariant and the overlap search (B-tree enumeration) are not under contract: this
 		// stand-in runs on every tier of C08 and of C01 (for the "start <= key" half of routing)
-		// (under C01 the harness checks what routing relies on - contents, eviction, lookups - and leaves the dead marks to C08)
+		// (under C01 the harness checks what routing relies on - contents, eviction, lookups - and leaves the dead marks to C08;
+		// C04 - requests survive splits and merges - relies on the eviction and the dead marks: full harness)
 		e.boundedProp = prop
 		report(e.boundedOverlay("c08-cache", "c08_cache_test.go.txt", ".", "TestBoundedC08",
 			"every sequence of up to 3 put/del operations over 36 regions (3 tables, one of them namespaced, two prefix-related x 6 ranges over keys \"\",a,b x 2 ids) on the real keyRegionCache against a brute-force interval model; 18 lookups after every step against brute-force containment"),
